@@ -225,6 +225,24 @@ MUTANTS: List[Dict] = [
     M("total5-wrong-return", "breaking", SCFG, "            self.insert_SyntheticExit(solo_exit_name, tails, exits)\n            return solo_tail_name, solo_exit_name\n", "            self.insert_SyntheticExit(solo_exit_name, tails, exits)\n            return solo_tail_name, next(iter(exits))\n", ["TOTAL-5"]),
     M("ctrl11-precedence", "breaking", TR, "                elif jt in headers and (name not in doms[jt] or name == jt):\n", "                elif jt in headers and name not in doms[jt] or name == jt:\n", ["CTRL-11"], "lost parentheses: any self loop is treated as a back edge to a header"),
     M("ok-guard-local", "benign", TR, "                elif jt in headers and (name not in doms[jt] or name == jt):\n", "                elif (jt in headers) and ((name not in doms[jt]) or (name == jt)):\n", []),
+    M("store11-dedupe", "breaking", BB, "        return replace(self, _jump_targets=jump_targets)\n", "        return replace(self, _jump_targets=tuple(dict.fromkeys(jump_targets)))\n", ["STORE-11"]),
+    M("store11-view-sorted", "breaking", BB, "        return tuple(acc)\n", "        return tuple(sorted(acc))\n", ["STORE-11"]),
+    M("store12-raw-loop-detection", "breaking", TR, "        or next(iter(nodes)) in scfg[next(iter(nodes))].jump_targets\n", "        or next(iter(nodes)) in scfg[next(iter(nodes))]._jump_targets\n", ["STORE-12"]),
+    M("store13-mutate-tree", "breaking", AT, "                return block.tree[:-1] + [if_node]\n", "                block.tree[-1] = if_node\n                return block.tree\n", ["STORE-13"]),
+    M("table5-last-offset-in-arm", "breaking", FI, "            elif is_exiting(inst.opname):\n                flowinfo._add_jump_inst(inst.offset, ())\n\n        flowinfo.last_offset = inst.offset\n", "            elif is_exiting(inst.opname):\n                flowinfo._add_jump_inst(inst.offset, ())\n                flowinfo.last_offset = inst.offset\n\n", ["TABLE-5"]),
+    M("lower10-none-value", "breaking", AT, "                        (ast.Constant(None) if val is None else val),\n", "                        val,\n", ["LOWER-10"]),
+    M("total6-break-iter", "breaking", SCFG, "                # If this is outside the current graph, just disregard it.\n                # (might be the case if inside a region and the block being\n                # looked at is outside of the region.)\n                continue\n            # yield the name, block combo", "                break\n            # yield the name, block combo", ["TOTAL-6"]),
+    M("total6-early-false", "breaking", SCFG, "            elif block not in seen:\n                seen.add(block)\n                if block in self.graph:", "            elif block not in seen:\n                seen.add(block)\n                if block in self.graph and not self.graph[block].jump_targets:\n                    return False\n                if block in self.graph:", ["TOTAL-6"]),
+    M("ctrl5-early-exit-wrong-list", "breaking", TR, "        and len(exiting_blocks) == 1\n", "        and len(exit_blocks) == 1\n", ["CTRL-5"]),
+    M("ord5-lru-cache", "breaking", SCFG, "    def compute_scc(self) -> List[Set[str]]:", "    @__import__(\"functools\").lru_cache(maxsize=None)\n    def compute_scc(self) -> List[Set[str]]:", ["ORD-5"], "decorator through __import__: still recognised by name"),
+    M("ord5-mutable-default", "breaking", AT, "    def to_SCFG(self) -> SCFG:", "    def to_SCFG(self, cache: dict = {}) -> SCFG:", ["ORD-5"]),
+    M("disp2-break-after-return", "breaking", AT, "        for node in tree:\n            self.handle_ast_node(node)\n", "        for node in tree:\n            self.handle_ast_node(node)\n            if isinstance(node, ast.Return):\n                break\n", ["DISP-2"]),
+    M("disp8-edges-from-view", "breaking", SCFG, "            edges[key] = [i for i in value._jump_targets]\n", "            edges[key] = [i for i in value.jump_targets] + [i for i in value.backedges]\n", ["DISP-8"]),
+    M("disp8-yaml-skip-falsy", "breaking", SCFG, '            for k, v in blocks[b].items():\n                ys += indent(', '            for k, v in blocks[b].items():\n                if not v:\n                    continue\n                ys += indent(', ["DISP-8"]),
+    M("disp9-drop-nested-parent", "breaking", SCFG, "                for inner in region.subregion.graph.values():\n                    if isinstance(inner, RegionBlock):\n                        object.__setattr__(inner, \"parent_region\", region)\n", "", ["DISP-9"]),
+    M("store4-append-any", "breaking", SCFG, "            else:\n                jt.append(new_name)\n", "            if new_name not in jt:\n                jt.append(new_name)\n", ["STORE-4"], "the close-the-graph special case folded into a generic append"),
+    M("ord1-keys-view-intersection", "breaking", SCFG, "                return [k for k in out if k in self.graph]\n", "                return list(self.graph.keys() & out)\n", ["ORD-1"]),
+    M("ord1-fromkeys-tainted", "breaking", TR, "    for name in sorted(loop):\n", "    for name in dict.fromkeys([*exiting_blocks, *backedge_blocks]):\n", ["ORD-1"]),
     # ------------------------------------------------ benign
     M("ok-rename-locals", "benign", TR, None, None, [], "rename locals of loop_restructure_helper (computed edit)"),
     M("ok-sorted-key", "benign", TR, "    for name in sorted(loop):\n", "    for name in sorted(loop, key=str):\n", []),
